@@ -18,14 +18,14 @@ CLAIMED = {
  "C14": dict(level="exploration", technique="property-based testing (rapid): every ID token in every response is verified with the public key and compared with independently computed bindings",
    text="All OpenID Connect flows x key types x session and request shapes; signature, alg, aud, sub, iss, nonce, exp window, at_hash / c_hash (left-half hash by alg) and the stated blockers of issuance.",
    note="Conditional oracle: a refusal is always acceptable. c_hash compared only when a code is delivered in the same response. Key/header combinations limited to the documented ones.", ref="DESIGN.md 4 C14"),
- "C15": dict(level="exploration", technique="property-based testing (rapid) over claim/header/key defects and short histories, plus exhaustive enumeration of storage-step interleavings of simultaneous presentations (harness-owned scheduler)",
-   text="Assertions with 0-2 named defects must be refused whenever the statement gives a reason; defect-free ones accepted; replays refused; 2 simultaneous presentations are run under every interleaving of their storage steps (3: bounded DFS): exactly one succeeds.",
-   note="Atomicity inside a single storage call is covered by C19's hammer, not here. Reuse of a jti after the first assertion expired is unspecified.", ref="DESIGN.md 4 C15"),
+ "C15": dict(level="exploration", technique="property-based testing (rapid) over claim/header/key defects and short histories, plus exhaustive enumeration of storage-step interleavings of simultaneous presentations (harness-owned scheduler) and free-running simultaneous presentations with real parallelism",
+   text="Assertions with 0-2 named defects must be refused whenever the statement gives a reason; defect-free ones accepted; replays refused; 2 simultaneous presentations are run under every interleaving of their storage steps (3: bounded DFS): exactly one succeeds; 6 goroutines presenting one fresh assertion at the same instant (token endpoint, JWT-bearer grant, the store itself) for thousands of rounds: at most one accepted. Client assertions are presented at the token, PAR, revocation and device-authorization endpoints.",
+   note="Atomicity inside a single storage call is only sampled (free-running job). Reuse of a jti after the first assertion expired is unspecified. The error class of a stale / premature assertion is not asserted.", ref="DESIGN.md 4 C15"),
  "C18": dict(level="fault_enumeration", technique="exhaustive single-fault enumeration over recorded storage-call lists (every index x failure kind x store x flow) with crash injection and a transactional store with real rollback; sampled fault pairs (rapid)",
-   text="Every storage call of 13 flows is failed in 5 ways on both stores; refused responses carry nothing, transaction grammar, table snapshots equal after in-transaction failures, legitimate retry succeeds, attack step stays refused, single-use credentials exchanged at most once.",
+   text="Every storage call of 14 flows is failed in 5 ways on both stores; refused responses carry nothing, transaction grammar (the transaction travels in the context BeginTX returns: commit, rollback and every write in between must carry it), table snapshots equal after in-transaction failures, legitimate retry succeeds, attack step stays refused, single-use credentials exchanged at most once, a revocation answered with success has left no token of the grant active.",
    note="not-found / inactive answers on read calls are legitimate store answers, not failures (no refusal demanded). Trusted: harness TxStore and fault wrapper.", ref="DESIGN.md 4 C18"),
- "C19": dict(level="exploration", technique="porcupine linearizability checking of generated concurrent store histories; exhaustive storage-step interleavings of API operation pairs (harness-owned scheduler); free-running stress and an atomicity hammer under the Go race detector",
-   text="Three engines: store linearizability against a sequential specification, all interleavings of two operations at storage-call granularity, and 8-goroutine stress under -race with populated and default-constructed configurations.",
+ "C19": dict(level="exploration", technique="porcupine linearizability checking of generated concurrent store histories; exhaustive storage-step interleavings of API operation pairs (harness-owned scheduler); free-running stress (with bursts of goroutines presenting the same credential) and an atomicity hammer under the Go race detector; lock-order tracking (lockdep) injected behind sync.Mutex / sync.RWMutex by the build overlay",
+   text="Three engines: store linearizability against a sequential specification, all interleavings of two operations at storage-call granularity, and 8-goroutine stress under -race with populated and default-constructed configurations. Every job also feeds a lock-order graph: two sequential calls that take two locks in opposite order are reported as a potential deadlock without the deadlock having to happen.",
    note="A silent race detector is evidence, not proof; schedules finer than a storage call are only sampled.", ref="DESIGN.md 4 C19"),
  "C20": dict(level="exploration", technique="property-based testing (rapid) of every error writer with hostile text and canaries (round-trip through JSON / URL / HTML5 parsers), header checks on success responses, storage recorder scan for recognisable secrets over generated flow sequences",
    text="Error responses are parsed back and compared; debug canary only with exposure on; cache headers everywhere; no storage key or stored form value equals or contains a submitted secret or a complete code/token.",
@@ -38,7 +38,7 @@ CLAIMED = {
    text="Generated sequences of wrong and right redemption attempts per code (client, redirect_uri spelling, smuggled parameters, age) inside longer histories; refused attempts must issue nothing (storage recorder), leave the code usable, and tokens must carry exactly the consented grant.",
    note="Trusted: reference model, recorder wrapper. redirect_uri omitted at authorization => no binding expected; SanitationWhiteList left at default.", ref="DESIGN.md 4 C02"),
  "C03": dict(level="exploration", technique="property-based testing (rapid): generated attempt sequences against an RFC 7636 reference predicate",
-   text="Every attempt in a generated sequence is decided by an independent reference (well-formedness + S256/plain transformation + enforcement policy), regardless of earlier attempts; both directions asserted (forbidden attempts refused, the decisive correct attempt accepted).",
+   text="Every attempt in a generated sequence is decided by an independent reference (well-formedness + S256/plain transformation + enforcement policy), regardless of earlier attempts and of injected failures of the PKCE lookup; both directions asserted (forbidden attempts refused, the decisive correct attempt accepted).",
    note="Trusted: refspec PKCE predicate. Enforcement may be switched on after the code was issued (operator action).", ref="DESIGN.md 4 C03"),
  "C04": dict(level="exploration", technique="stateful property-based testing (rapid state machine) against a reference model; per-step introspection invariant",
    text="Generated refresh chains (depth up to ~10) over grants of code/hybrid/password/device origin with replays of any generation, revocations and other families in between; rotation and family-kill expectations from the statement, other grants must be unaffected.",
